@@ -167,9 +167,10 @@ func structCasesV(c *runner.Ctx, k int, kd kindT, firstPrefix string) {
 			{Name: "P0", Type: kd.t, Tag: `valid:"either=1,botheq=1"`},
 			{Name: "P1", Type: kd.t, Tag: `valid:"either=1,botheq=1"`},
 			{Name: "Child", Type: reflect.PtrTo(st), Tag: `valid:"exist"`},
-			{Name: "Kids", Type: reflect.SliceOf(st), Tag: `valid:"exist"`},
+			// (both markers on one field, in either order: the sub-objects - and their groups - are met once; round 13)
+			{Name: "Kids", Type: reflect.SliceOf(st), Tag: `valid:"exist,required"`},
 			{Name: "ByKey", Type: reflect.MapOf(reflect.TypeOf(""), st), Tag: `valid:"exist"`},
-			{Name: "Pair", Type: reflect.ArrayOf(2, st), Tag: `valid:"exist"`},
+			{Name: "Pair", Type: reflect.ArrayOf(2, st), Tag: `valid:"required,exist"`},
 		})
 		// an embedded object is an object of its own too (same group ids in the outer struct)
 		embOuter := reflect.StructOf([]reflect.StructField{
